@@ -56,7 +56,13 @@ pub fn execute(ctx: &mut Ctx, lines: &[String]) -> Vec<(Vec<String>, Vec<String>
     ctx.report.evaluations += 1;
     match hdr[1] {
         "spec" => vec![(lines.to_vec(), spec::execute(ctx, lines))],
-        "flw" | "robust" => vec![(lines.to_vec(), flw::execute(ctx, lines))],
+        "flw" | "robust" => {
+            let ans = flw::execute(ctx, lines);
+            // `BGTRACE` is rewritten into what was observed of the cleanup thread (`BGOBS …`)
+            let obs = flw::BGOBS_LINE.lock().unwrap().take();
+            let eff: Vec<String> = lines.iter().map(|l| if l == "BGTRACE" { obs.clone().unwrap_or_else(|| "NOTE bgtrace-not-applicable".into()) } else { l.clone() }).collect();
+            vec![(eff, ans)]
+        }
         "conc" => conc::execute(ctx, lines),
         "fmt" => vec![(lines.to_vec(), fmt::execute(ctx, lines))],
         "names" => vec![(lines.to_vec(), names::execute(ctx, lines))],
